@@ -45,6 +45,17 @@ L1_KINDS = [
     ("raise:OperationalError:database or disk is full", ("before",)),
     ("raise:DatabaseError:injected database error", ("before", "after")),
 ]
+# a statement can also be rejected by the sqlite3 module itself, with exceptions that are not sqlite3.IntegrityError /
+# InterfaceError / OperationalError (and partly not sqlite3.Error at all); one of these per statement, in rotation
+L1_ROTATING = [
+    "raise:ProgrammingError:Error binding parameter 1: type is not supported",
+    "raise:OverflowError:Python int too large to convert to SQLite INTEGER",
+    "raise:DataError:string or blob too big",
+    "raise:MemoryError:",
+    "raise:ValueError:the query contains a null character",
+    "raise:NotSupportedError:injected",
+    "raise:TypeError:injected",
+]
 SYSCALL_KIND = {1: "pwrite", 2: "write", 3: "fsync", 4: "unlink", 5: "ftruncate", 6: "create", 7: "rename"}
 
 
@@ -150,6 +161,12 @@ def gen_w(rng, cfg, fm, favourites, kind=None):
                 op["iso"].pop("model", None)
         else:
             op.update(autoinsert_material=rng.random() < 0.5, autoinsert_adsorbate=rng.random() < 0.5)
+        if op["iso"]["kind"] == "point" and len(op["iso"]["pressure"]) < 100 and rng.random() < 0.4:
+            # a supplementary column without a single reading (all None), or whose first readings are missing
+            n = len(op["iso"]["pressure"])
+            op["iso"]["other"] = dict(op["iso"].get("other") or {})
+            op["iso"]["other"]["verif_gap"] = [None] * n if rng.random() < 0.6 else [None, None] + [0.5 * i for i in range(n - 2)]
+            op["iso"]["route"] = "frame"
     elif kind == "iso_del":
         op.update(op="isotherm_delete_db")
         if fm.isos and rng.random() < 0.85:
@@ -164,8 +181,11 @@ def gen_w(rng, cfg, fm, favourites, kind=None):
         elif kind == "ads_up":
             absent = [n for n in c08.UADS if n not in fm.ads]
             name = rng.choice(absent) if absent and rng.random() < 0.85 else None
-        op.update(op="adsorbate_to_db", ads=c08._ads_spec(rng, name), overwrite=(kind == "ads_over"),
+        # one case in five carries a value SQLite itself rejects at the statement that stores it (None, NaN, a list)
+        op.update(op="adsorbate_to_db", ads=c08._ads_spec(rng, name, open_values=rng.random() < 0.2), overwrite=(kind == "ads_over"),
                   autoinsert_properties=rng.random() < 0.8)
+        if rng.random() < 0.2:
+            op["ads"]["verif_p3"] = rng.choice([None, float("nan")])     # a value the storing statement itself rejects
     elif kind == "ads_del":
         present = sorted(n for n in fm.ads if n in c08.UNIVERSE["ads"])
         free = [n for n in present if not fm.refs_adsorbate(n)]
@@ -180,8 +200,10 @@ def gen_w(rng, cfg, fm, favourites, kind=None):
         elif kind == "mat_up":
             absent = [n for n in c08.UMATS if n not in fm.mats]
             name = rng.choice(absent) if absent and rng.random() < 0.85 else None
-        op.update(op="material_to_db", mat=c08._mat_spec(rng, name), overwrite=(kind == "mat_over"),
+        op.update(op="material_to_db", mat=c08._mat_spec(rng, name, open_values=rng.random() < 0.2), overwrite=(kind == "mat_over"),
                   autoinsert_properties=rng.random() < 0.8)
+        if rng.random() < 0.2:
+            op["mat"]["verif_m1"] = rng.choice([None, float("nan")])
     elif kind == "mat_del":
         present = sorted(fm.mats)
         # prefer items that have properties (several rows to delete) and are not referenced (the deletion can succeed)
@@ -240,7 +262,8 @@ def _trial_child(w, dbmap, plan, arm, watch, retry, twice, known_shas=()):
 
     def audit_and_retry():
         """Audit the file as the faulted attempt left it, then issue the same call again, fault-free."""
-        got = {"events": [list(e) for e in sqlseam.events()], "fired": sqlseam.fired()}
+        got = {"events": [list(e) for e in sqlseam.events()], "fired": sqlseam.fired(),
+               "fetches": [list(f) for f in sqlseam.fetches()]}
         if sh is not None:
             n = sh.verif_count()
             got["syscalls"] = [sh.verif_kind(i) for i in range(1, min(n, 4000) + 1)]
@@ -264,6 +287,8 @@ def _trial_child(w, dbmap, plan, arm, watch, retry, twice, known_shas=()):
     except BaseException:      # KeyboardInterrupt / SystemExit travelled through the library: the process ends now
         os._exit(137)
     out["r1"] = _slim(r1)
+    if plan is None and not arm:
+        out["uploaded"] = r1.get("uploaded")     # fault-free run: what the caller handed over
     if "held" in r1:
         out.update(r1["held"])
         out["retried_holding_exception"] = True
@@ -273,6 +298,7 @@ def _trial_child(w, dbmap, plan, arm, watch, retry, twice, known_shas=()):
         else:
             out["events"] = [list(e) for e in sqlseam.events()]
             out["fired"] = sqlseam.fired()
+            out["fetches"] = [list(f) for f in sqlseam.fetches()]
             if sh is not None:
                 n = sh.verif_count()
                 out["syscalls"] = [sh.verif_kind(i) for i in range(1, min(n, 4000) + 1)]
@@ -479,7 +505,7 @@ class Case:
             return fresh_memo[state]
 
         # per-case retrieval audit of both states from a fresh session ("everything stored before remains retrievable")
-        self._retrieval_audit(w, ref, out1)
+        self._retrieval_audit(w, ref, out1, gold.get("uploaded"))
         if self.viol:
             return
 
@@ -491,6 +517,9 @@ class Case:
                 for action, whens in L1_KINDS:
                     for when in whens:
                         plans.append(("L1", {"event": i, "when": when, "action": action, "expect_kind": "exec"}, None))
+                rot = L1_ROTATING[(i + self.case.get("index", 0)) % len(L1_ROTATING)]
+                for when in ("before", "after"):
+                    plans.append(("L1", {"event": i, "when": when, "action": rot, "expect_kind": "exec"}, None))
                 for when in ("before", "after"):
                     plans.append(("L2", {"event": i, "when": when, "action": "exit", "expect_kind": "exec"}, None))
                 # orderly death: an exception that is not an Exception (signal handler), `finally` blocks run
@@ -508,6 +537,12 @@ class Case:
             elif kind == "close":
                 for when in ("before", "after"):
                     plans.append(("L2", {"event": i, "when": when, "action": "exit", "expect_kind": "close"}, None))
+        # rows read from a result: the storage layer reports its error for a SELECT while the rows are fetched
+        self.fetches = gold.get("fetches") or []
+        for n in range(1, len(self.fetches) + 1):
+            plans.append(("L1", {"fetch": n, "action": "raise:OperationalError:disk I/O error"}, None))
+            if n % 2 == self.case.get("index", 0) % 2:
+                plans.append(("L1", {"fetch": n, "action": "raise:DatabaseError:database disk image is malformed"}, None))
         do_l3 = self.use_l3 and (self.case.get("l3") is True or (self.case.get("l3") is None and self.case.get("l3_pick", False)))
         if do_l3:
             for n in range(1, len(syscalls) + 1):
@@ -518,7 +553,7 @@ class Case:
             self._one_trial(w, layer, plan, arm, events, syscalls, sha_pre, sha_post, sha_post2, out1, out2, D_pre, D_post,
                             fresh_expect, changes)
 
-    def _retrieval_audit(self, w, ref, out1):
+    def _retrieval_audit(self, w, ref, out1, uploaded=None):
         """Fresh session reads both reference states; prior items must be identical in both unless W targets them."""
         reads = {}
         for state in ("pre", "post"):
@@ -539,6 +574,29 @@ class Case:
                 s.kill()
         if out1["outcome"] != "ok":
             return
+        # "the complete effect of the operation": an upload that reported success left the item as it was handed over -
+        # never one with only some of its properties, columns or points (the same equality the keyed-collection model
+        # of C08 uses: exact, numbers by value)
+        if uploaded is not None and w["op"] in ("adsorbate_to_db", "material_to_db", "isotherm_to_db"):
+            self.count("probe:complete-effect-checked")
+            if w["op"] == "isotherm_to_db":
+                n_pre = sum(1 for c in reads["pre"]["isotherms_from_db"] if c["loose_na"] == uploaded["loose_na"])
+                n_post = sum(1 for c in reads["post"]["isotherms_from_db"] if c["loose_na"] == uploaded["loose_na"])
+                if n_post != n_pre + 1:
+                    near = [c for c in reads["post"]["isotherms_from_db"] if c["mname"] == uploaded["mname"] and c["type"] == uploaded["type"]]
+                    what = "data" if any(dg.diff(c["d"], uploaded["d"]) is None for c in near) else "content"
+                    self.fail("incomplete-effect", f"w={self.wclass} table=isotherms differs={what}", {"uploaded_id": uploaded.get("iso_id")})
+                    return
+            else:
+                opn = "adsorbates_from_db" if w["op"].startswith("ads") else "materials_from_db"
+                name = rs._cd(uploaded)["name"][1]
+                got = [c for c in reads["post"][opn] if rs._cd(c)["name"][1] == name]
+                if len(got) != 1 or dg.diff(got[0], uploaded, rtol=0.0, loose_numbers=True) is not None:
+                    gd, wd = (rs._cd(got[0]) if got else {}), rs._cd(uploaded)
+                    fields = sorted(x for x in set(gd) | set(wd) if x not in gd or x not in wd
+                                    or dg.diff(gd[x], wd[x], rtol=0.0, loose_numbers=True) is not None)
+                    self.fail("incomplete-effect", f"w={self.wclass} table={opn.split('_')[0]} fields={','.join(fields)[:60]}", {})
+                    return
         # items present before and not named by W must read back identically afterwards
         target = self._target_names(w)
         for opn, keyf in (("adsorbates_from_db", lambda c: rs._cd(c)["name"][1]), ("materials_from_db", lambda c: rs._cd(c)["name"][1]),
@@ -596,7 +654,13 @@ class Case:
             # the state right after the faulted attempt was audited inside the child, before its retry
             d = res.get("mid_dump") or (D_pre if res["mid_sha"] == sha_pre else D_post)
             stray = [n for n in res["mid_stray"] if n != "trial.db-journal"]
-        if layer == "L1":
+        if layer == "L1" and "fetch" in plan:
+            fe = self.fetches[plan["fetch"] - 1]
+            ev = events[fe[0] - 1] if fe[0] else ["none", ""]
+            pos = f"fetch:{fe[1]}:{ev[1]}"
+            fkind = plan["action"].split(":")[1]
+            where = f"layer=L1 at={pos} fault={fkind}"
+        elif layer == "L1":
             ev = events[plan["event"] - 1]
             pos = f"{ev[0]}:{ev[1]}:{plan['when']}"
             fkind = plan["action"].split(":")[1]
@@ -672,9 +736,12 @@ class Case:
             if k == 1 and arm > 1 and syscalls[arm - 2] == 1:
                 self.count("probe:death-between-page-writes")
         if fired and layer != "L3":
+            if "fetch" in plan:
+                self.count("probe:fault-while-reading-rows")
+                plan = dict(plan, event=self.fetches[plan["fetch"] - 1][0] + 1)   # position among the events, for the probes
             if any(e[1].startswith("INSERT") or e[1].startswith("DELETE") or e[1].startswith("UPDATE") for e in events[:plan["event"] - 1] if e[0] == "exec"):
                 self.count("probe:fault-after-a-row-was-written")
-            if events[plan["event"] - 1][0] == "commit":
+            if "fetch" not in plan and events[plan["event"] - 1][0] == "commit":
                 self.count("probe:fault-at-commit")
         # clause 3: a swallowed fault must leave the complete effect
         if layer == "L1" and fired:
@@ -790,6 +857,8 @@ def _prepare(ctx, case, rng):
         finally:
             s2.kill()
         w = gen_w(rng, case["cfg"], fm, favourites, kind=case.get("kind"))
+        if rng.random() < 0.3:
+            w["verbose"] = True
     finally:
         shutil.rmtree(rundir, ignore_errors=True)
     return prefix, w
@@ -816,6 +885,7 @@ def run(ctx, index):
     case = gen_case(rng, ctx.tier)
     case["l3_pick"] = (index % 4 == 0)
     case["kind"] = KIND_CYCLE[index % len(KIND_CYCLE)]
+    case["index"] = index
     prefix, w = _prepare(ctx, case, rng)
     res = execute(ctx, case, prefix, w)
     if index < 2:
